@@ -90,7 +90,7 @@ Definition why (c : cfg) (s : state) (r : result) (evs : list event) : Prop :=
 Lemma with_backoff_bo c k s0 r0 :
   match with_backoff c k s0 r0 with
   | HRetry s' evs => adv c s0 s' evs /\ rearmed_v s' = rearmed_v s0 /\ n_rearms evs = 0%nat
-  | HDone r evs => r = r0 /\ bo_ok c (bo_total s0) (bo_excl s0) evs /\ n_rearms evs = 0%nat /\ why c s0 r evs
+  | HDone _ r evs => r = r0 /\ bo_ok c (bo_total s0) (bo_excl s0) evs /\ n_rearms evs = 0%nat /\ why c s0 r evs
   end.
 Proof.
   unfold with_backoff. destruct (backoff c k s0) as [s' e| |e] eqn:B.
@@ -128,7 +128,7 @@ Qed.
 Definition sres_bo (c : cfg) (s : state) (x : sres) : Prop :=
   match x with
   | SSent s' t evs => adv c s s' evs /\ rearmed_v s' = rearmed_v s
-  | SDone r evs => bo_ok c (bo_total s) (bo_excl s) evs /\ why c s r evs
+  | SDone _ r evs => bo_ok c (bo_total s) (bo_excl s) evs /\ why c s r evs
   end.
 
 Lemma why_aux c s0 s r evs : aux s0 = aux s -> why c s0 r evs -> why c s r evs.
@@ -154,8 +154,8 @@ Lemma send_tail_bo c s s3 t (pre_evs : list event) :
   sres_bo c s (if pending (rep_at s3 t) then
                  match backoff c BoBusy (upd_rep t (set_pending false) s3) with
                  | BoOk s4 e => SSent s4 t (e :: pre_evs)
-                 | BoRefused => SDone RError []
-                 | BoKilled e => SDone RError [e]
+                 | BoRefused => SDone s3 RError []
+                 | BoKilled e => SDone s3 RError [e]
                  end
                else SSent s3 t pre_evs).
 Proof.
@@ -208,14 +208,14 @@ Qed.
 Definition hres_bo (fixed : bool) (c : cfg) (s : state) (h : hres) : Prop :=
   match h with
   | HRetry s' evs => adv c s s' evs /\ (fixed = true -> (unarmed c s' + n_rearms evs <= unarmed c s)%nat)
-  | HDone r evs => bo_ok c (bo_total s) (bo_excl s) evs /\ n_rearms evs = 0%nat /\ why c s r evs
+  | HDone _ r evs => bo_ok c (bo_total s) (bo_excl s) evs /\ n_rearms evs = 0%nat /\ why c s r evs
   end.
 
 Lemma wb_bo fixed c k s0 r0 s : aux s0 = aux s -> hres_bo fixed c s (with_backoff c k s0 r0).
 Proof.
   intros A. assert (TE : bo_total s0 = bo_total s /\ bo_excl s0 = bo_excl s /\ rearmed_v s0 = rearmed_v s) by (unfold aux in A; injection A as V T E _ _; auto).
   destruct TE as (T & E & V). pose proof (with_backoff_bo c k s0 r0) as W.
-  destruct (with_backoff c k s0 r0) as [s' evs|r evs]; unfold hres_bo.
+  destruct (with_backoff c k s0 r0) as [s' evs|sd r evs]; unfold hres_bo.
   - destruct W as ((A1 & A2 & A3 & A4) & W2 & W3).
     assert (C5 : calm c s -> calm c s') by (intros C; apply A4; apply (calm_aux c s s0 A C)).
     unfold adv, unarmed. rewrite T, E in *. rewrite W2, V, W3. repeat split; auto; try lia; try calmtac.
@@ -225,7 +225,7 @@ Qed.
 Lemma retry_bo fixed c s s' : aux s' = aux s -> hres_bo fixed c s (HRetry s' []).
 Proof. intros H. split; [now apply adv_nil|]. unfold unarmed, aux in *. injection H as -> _ _ _ _. cbn. lia. Qed.
 
-Lemma done_bo fixed c s r : r <> RError -> hres_bo fixed c s (HDone r []).
+Lemma done_bo fixed c s sd r : r <> RError -> hres_bo fixed c s (HDone sd r []).
 Proof. intros H. split; [exact I|]. split; [reflexivity|]. intros _ R. contradiction. Qed.
 
 Lemma hint_bo fixed c s t k lim : (fixed = true -> lim = Some (length (c_reps c) - 1)%nat) ->
@@ -250,7 +250,7 @@ Qed.
 
 Lemma handle_bo fixed c s t o i : hres_bo fixed c s (handle fixed c s t o i).
 Proof.
-  assert (DD : dead s = true -> hres_bo fixed c s (HDone RError [])).
+  assert (DD : dead s = true -> hres_bo fixed c s (HDone s RError [])).
   { intros D. split; [exact I|]. split; [reflexivity|]. intros (_ & _ & D' & _) _. congruence. }
   destruct o; cbn [handle]; try (apply hint_bo; intros ->; reflexivity); unfold on_send_fail, on_busy; cbv zeta;
     try (apply retry_bo; reflexivity); try (apply done_bo; discriminate);
@@ -280,7 +280,7 @@ Definition loop_ok (fixed : bool) (c : cfg) (s : state) (x : list event * result
 Lemma loop_bo fixed c script : forall s prev i, loop_ok fixed c s (loop_gen fixed c script s prev i).
 Proof.
   induction script as [|o rest IH]; intros s prev i; rewrite loop_unfold;
-    pose proof (pre_bo fixed c s prev i) as P; destruct (pre fixed c s prev i) as [s1 evs1|r evs1].
+    pose proof (pre_bo fixed c s prev i) as P; destruct (pre fixed c s prev i) as [s1 evs1|sd r evs1].
   2,4: (destruct P as (P1 & P2 & P3); unfold loop_ok; cbn [fst snd]; repeat split; auto;
         [intros C R; destruct (P3 C R) as [-> S]; cbn [tot exc]; now rewrite !N.add_0_r | intros; lia]).
   all: destruct P as ((T1 & E1 & OK1 & C1) & U1); cbv zeta;
@@ -288,7 +288,7 @@ Proof.
     assert (A1 : aux s1' = aux s1) by (subst s1'; destruct (0 <? i)%nat; reflexivity);
     pose proof (sel_phase_bo c s1') as Q; pose proof (sel_phase_spec c s1') as Q0;
     pose proof (calm_aux c s1 s1' A1) as CA;
-    destruct (sel_phase c s1') as [s2 t evs2|r evs2]; unfold aux in A1; injection A1 as V1 T1' E1' _ _; unfold sres_bo in Q.
+    destruct (sel_phase c s1') as [s2 t evs2|sd2 r evs2]; unfold aux in A1; injection A1 as V1 T1' E1' _ _; unfold sres_bo in Q.
   (* the selector gave up *)
   2,4: (destruct Q as [Q1 Q2]; destruct Q0 as [_ Q0]; rewrite T1', E1', T1, E1 in *; unfold loop_ok; cbn [fst snd];
         rewrite tot_app, exc_app, n_rearms_app, Q0; repeat split;
